@@ -86,6 +86,10 @@ def real_step(s, first_name):
         return DF.delete_resource(0)
     if k == 'concatenate':
         return DF.concatenate(dict(a=[], b=[]), target=dict(name='cc'))
+    if k == 'concat_head':
+        return DF.concatenate(dict(a=[], b=[]), target=dict(name='ch'), resources=0)
+    if k == 'concat_tail':
+        return DF.concatenate(dict(a=[], b=[]), target=dict(name='ch'), resources=-1)
     if k == 'source':
         return tuple_source([('extra', [('a', 'integer'), ('b', 'string')], [dict(a=9, b='n')])])
     if k == 'unpivot_b':
